@@ -8,6 +8,7 @@ import (
 	"github.com/dtn7/dtn7-go/pkg/bpv7"
 	"github.com/dtn7/dtn7-go/pkg/cla"
 	verif "github.com/dtn7/dtn7-go/pkg/zzverif"
+	"github.com/ulikunitz/xz"
 )
 
 type nullModem struct{ mtu int }
@@ -42,6 +43,14 @@ func H12_BbcTrain() {
 	mtu := verif.Size("mtu", 3, verif.Param("maxmtu", 6))
 	b := trainBundle(verif.Size("n", 0, 2))
 	want := enc(b)
+	// the link-level byte stream (xz of the encoding; the identity codec under the engine)
+	var sbuf bytes.Buffer
+	xw, xerr := xz.NewWriter(&sbuf)
+	if xerr != nil || b.WriteBundle(xw) != nil || xw.Close() != nil {
+		verif.Assert(false, "stream encodes")
+		return
+	}
+	stream := sbuf.Bytes()
 	tid := verif.U8("tid")
 	out, err := NewOutgoingTransmission(tid, b, mtu)
 	verif.Assert(err == nil, "outgoing transmission created")
@@ -50,7 +59,7 @@ func H12_BbcTrain() {
 		f, fin, werr := out.WriteFragment()
 		verif.Assert(werr == nil, "fragment written")
 		train = append(train, f)
-		verif.Assert(len(train) <= len(want)+1, "the train ends")
+		verif.Assert(len(train) <= len(stream)+1, "the train ends")
 		if fin {
 			break
 		}
@@ -68,7 +77,7 @@ func H12_BbcTrain() {
 		}
 		total += len(f.Payload)
 	}
-	verif.Assert(total == len(want), "fragments carry the whole encoding")
+	verif.Assert(total == len(stream), "fragments carry the whole stream")
 
 	// fault injection
 	fault := verif.Choose("fault", 4) // 0 none, 1 drop, 2 duplicate, 3 swap with next
